@@ -3,6 +3,9 @@ package ast
 import "github.com/xjslang/xjs/token"
 
 func (cw *CodeWriter) AddMapping(pos token.Position) {
+	// pending whitespace belongs in front of the token: write it first, so that
+	// the mapping is recorded at the position where the token will start
+	cw.flushPending()
 	if cw.Mapper == nil {
 		return
 	}
@@ -10,6 +13,7 @@ func (cw *CodeWriter) AddMapping(pos token.Position) {
 }
 
 func (cw *CodeWriter) AddNamedMapping(sourceLine, sourceColumn int, name string) {
+	cw.flushPending()
 	if cw.Mapper == nil {
 		return
 	}
